@@ -235,6 +235,79 @@ func genC05(c *Ctx) {
 		k := c.randScalar()
 		c.Case("pk-of-scalar", "pk.of 0x"+k.Text(16), "ok "+hx(pkOf(k)))
 	}
+	// encodings of keys of every provenance: the point is held in non-affine coordinates after a removal, in the
+	// key shares of threshold key generation, in aggregated keys; the bytes must be those of the affine point,
+	// decode back to an equal key, and equal keys must encode equally
+	nProv := 6
+	if c.thorough() {
+		nProv = 60
+	}
+	for i := 0; i < nProv; i++ {
+		k1, k2, k3 := c.randScalar(), c.randScalar(), c.randScalar()
+		p1, p2, p3 := skFromInt(k1).PublicKey(), skFromInt(k2).PublicKey(), skFromInt(k3).PublicKey()
+		enc := func(class string, k *big.Int, build func() (crypto.PublicKey, error)) {
+			c.Case("pk-encode-provenance/"+class, "pk.of 0x"+k.Text(16), guard(func() string {
+				pk, err := build()
+				if err != nil {
+					return "err " + errClass(err)
+				}
+				b := pk.Encode()
+				dec, derr := crypto.DecodePublicKey(bls, b)
+				if derr != nil {
+					return "ok " + hx(b) + " does-not-decode"
+				}
+				if !dec.Equals(pk) || !pk.Equals(dec) {
+					return "ok " + hx(b) + " decoded-key-not-equal"
+				}
+				if !bytes.Equal(pk.EncodeCompressed(), b) || !bytes.Equal(dec.Encode(), b) {
+					return "ok " + hx(b) + " encodings-differ"
+				}
+				return "ok " + hx(b)
+			}))
+		}
+		sum12 := new(big.Int).Mod(new(big.Int).Add(k1, k2), blsR)
+		sum123 := new(big.Int).Mod(new(big.Int).Add(sum12, k3), blsR)
+		enc("aggregated", sum12, func() (crypto.PublicKey, error) { return crypto.AggregateBLSPublicKeys([]crypto.PublicKey{p1, p2}) })
+		enc("removed", k1, func() (crypto.PublicKey, error) {
+			agg, err := crypto.AggregateBLSPublicKeys([]crypto.PublicKey{p1, p2})
+			if err != nil {
+				return nil, err
+			}
+			return crypto.RemoveBLSPublicKeys(agg, []crypto.PublicKey{p2})
+		})
+		enc("removed-twice", k2, func() (crypto.PublicKey, error) {
+			agg, err := crypto.AggregateBLSPublicKeys([]crypto.PublicKey{p1, p2, p3})
+			if err != nil {
+				return nil, err
+			}
+			r1, err := crypto.RemoveBLSPublicKeys(agg, []crypto.PublicKey{p3})
+			if err != nil {
+				return nil, err
+			}
+			return crypto.RemoveBLSPublicKeys(r1, []crypto.PublicKey{p1})
+		})
+		enc("removed-then-aggregated", sum123, func() (crypto.PublicKey, error) {
+			agg, err := crypto.AggregateBLSPublicKeys([]crypto.PublicKey{p1, p2, p3})
+			if err != nil {
+				return nil, err
+			}
+			r1, err := crypto.RemoveBLSPublicKeys(agg, []crypto.PublicKey{p3})
+			if err != nil {
+				return nil, err
+			}
+			return crypto.AggregateBLSPublicKeys([]crypto.PublicKey{r1, p3})
+		})
+		// key shares and group key of threshold key generation (the shares' scalars are the returned private keys)
+		n, t := 3+i%3, 1+i%2
+		sks, pks, _, err := crypto.BLSThresholdKeyGen(n, t, c.bytes(32))
+		if err == nil {
+			for j := range sks {
+				kj := new(big.Int).SetBytes(sks[j].Encode())
+				pj := pks[j]
+				enc("threshold-share", kj, func() (crypto.PublicKey, error) { return pj, nil })
+			}
+		}
+	}
 	_ = fmt.Sprint
 	genC05ecdsa(c)
 }
